@@ -181,7 +181,7 @@ impl Ty {
 }
 
 /// Object-safe generator interface.
-pub trait Gen: Send {
+pub trait Gen {
     fn ty(&self) -> Ty;
     fn next_u32(&mut self) -> u32;
     fn next_u64(&mut self) -> u64;
